@@ -46,6 +46,13 @@ CLAIMS = {
  'C14': dict(cat='other', tech='traversal/order analysis of the 16 tuple Clause impls + decision tables of every function that registers patterns, Each::deconstruct, try_from_clause, from_assembler + bounds query + compile-fail witnesses with twins',
    text='Decides R14.1-R14.4: each tuple impl (arity 2..16) deconstructs fields 0..n-1 once each, in order, into the same sink and stops at the first error; every function that mutates the assembler\'s method table obeys the registration table (unproducible output or mode conflict => Err before anything is registered; same mode => append; new method => insert); an empty stub is rejected before any push; try_from_clause propagates the error and from_assembler panics on it at construction; at_least_times carries Ordering<Kind=InAnyOrder> and then() carries Repetition<Kind=Exact>, confirmed by 11 witnesses (5 rejected with E0271/E0277, twins compile); 17-tuples are not clauses.',
    note='Arity 1: `(T,)` has no Clause impl (recorded as a fact by witness c14_tuple1_fact); the property\'s arity 1 is read as the bare clause. Trusted: rustc, exporter, rule engine.', engine='FACTS+TYWIT'),
+
+ 'C17': dict(cat='other', tech='variant-map decision tables over MIR of every container conversion + traversal-class analysis of Vec kinds + slot provenance of tuple kinds',
+   text='Decides R17.1-R17.4 for every IntoReturnOnce / IntoReturn / GetOutput impl under src/output: variant k of the configured value maps to variant k of the produced value (Some/None, Ok/Err, Ready/Pending) with the payload converted from that arm\'s own payload, or the whole value fails (exhausted single-use leaf, or &mut kinds that cannot lend); Vec kinds traverse forward producing one element per stored element; tuple slot i is converted from slot i; lent leaves borrow the box stored in the mock, static leaves are the stored reference, owned leaves are the stored closure\'s result. Each variant and each impl is a separate obligation; the suite covers a handful.',
+   note='Not decided: the macro\'s choice of output kind from the return type syntax is compiler-checked (Output<\'u> must equal the declared return type) and exercised by the C05 grammar, not re-derived here; values are not compared at run time. Trusted: rustc, exporter, rule engine, std contracts (Option::map/as_ref variant-preserving, collect order-preserving).'),
+ 'C18': dict(cat='other', tech='statics census (type-level) + provenance of constructor/clone fields + field-use census on the call path + slot-cursor who-may-write',
+   text='Decides R18.1-R18.4: neither crate has mutable, interior-mutable or thread-local statics; a new mock is built around a fresh Arc<SharedState> (counter 0, empty error list, own fn table) and clone shares exactly that Arc; the mocked-call path reads no per-instance field of Unimock, only shared_state, so routing a call through the original or any clone is indistinguishable; the slot cursor is touched only by ordered patterns, per-method lists are separate map entries under TypeId::of::<F>() and registration never looks at other entries.',
+   note='Not decided: no pair of runs is executed (the metamorphic statement follows from the absence of any other state or order dependence). The generic-instantiation clause (distinct TypeIds for distinct type arguments) additionally relies on the generated MockFn types carrying all type parameters, validated in the C05 grammar (R18.5). Trusted: rustc, exporter, rule engine.'),
 }
 
 checks = []
